@@ -391,7 +391,7 @@ theorem apiStep_inv (hrc : ComposeSpec env.recompose) (op : Op) {c : Ctx} (h : I
     · exact commitBuf_inv h _
     · exact h
 
-theorem init_inv : Inv ({} : Ctx) := ⟨by simp, SegsOK.nil⟩
+theorem init_inv : Inv ({} : Ctx) := ⟨⟨by simp, SegsOK.nil⟩, by simp⟩
 
 /-- the invariant holds in every reachable state -/
 theorem runOps_inv (hrc : ComposeSpec env.recompose) (ops : List Op) {c : Ctx} (h : Inv c) :
